@@ -4789,6 +4789,9 @@ class ParseCtx:
                         '\\': '\\'
                     }[contents[i]]
                     i += 1
+        if any(ord(x) > 255 for x in result):
+            # (one character stands for one byte everywhere a literal is used)
+            raise IllegalParseTree("String literal contains characters outside the byte range (use \\x escapes) " + escaped_string)
         return result
 
     def _convert_binary_string(self, binary_string: str):
